@@ -569,6 +569,53 @@ Fixpoint ext_chain (e : err) : bool :=
   | _ => false
   end.
 
+(* ---------- look-alikes: equal content, different identity ---------- *)
+(* a foreign errors.New value with exactly the text of sentinel s: another value, hence SOther *)
+Definition twin_of (s : sentinel) : sentinel := SOther (100 + sentinel_code s).
+
+(* the identity of an allocated wrapper *)
+Definition node_id (e : err) : option nat :=
+  match e with
+  | ELib i _ | EFmt i _ | EConn i _ _ | EWithRetry i _ _ _ | EReqTimeout i _ | EPtrErrField i _
+  | EPtrNoErr i | EPtrErrNotError i | EPtrNonStruct i => Some i
+  | _ => None
+  end.
+
+(* the same construction executed a second time: every allocation is a new one (identities
+   shifted by k), everything else — sentinels, field values, nesting — is identical *)
+Fixpoint retag (k : nat) (e : err) : err :=
+  match e with
+  | ELib i e' => ELib (k + i) (retag k e')
+  | EFmt i e' => EFmt (k + i) (retag k e')
+  | EConn i c e' => EConn (k + i) c (retag k e')
+  | EWithRetry i l e' h => EWithRetry (k + i) (k + l) (retag k e') h
+  | EReqTimeout i e' => EReqTimeout (k + i) (retag k e')
+  | EPtrErrField i e' => EPtrErrField (k + i) (retag k e')
+  | EPtrNoErr i => EPtrNoErr (k + i)
+  | EPtrErrNotError i => EPtrErrNotError (k + i)
+  | EPtrNonStruct i => EPtrNonStruct (k + i)
+  | _ => e
+  end.
+
+(* the content of a value: what reflect.DeepEqual or a comparison of Error() texts would see *)
+Fixpoint erase (e : err) : err :=
+  match e with
+  | ELib _ e' => ELib 0 (erase e')
+  | EFmt _ e' => EFmt 0 (erase e')
+  | EConn _ c e' => EConn 0 c (erase e')
+  | EWithRetry _ _ e' h => EWithRetry 0 0 (erase e') h
+  | EReqTimeout _ e' => EReqTimeout 0 (erase e')
+  | EPtrErrField _ e' => EPtrErrField 0 (erase e')
+  | EPtrNoErr _ => EPtrNoErr 0
+  | EPtrErrNotError _ => EPtrErrNotError 0
+  | EPtrNonStruct _ => EPtrNonStruct 0
+  | _ => e
+  end.
+
+(* every allocation of the chain has an identity below k *)
+Definition ids_below (k : nat) (e : err) : bool :=
+  forallb (fun n => match node_id n with Some i => Nat.ltb i k | None => true end) (chain e).
+
 (* s occurs anywhere inside e *)
 Fixpoint occurs_sent (s : sentinel) (e : err) : bool :=
   match e with
